@@ -154,11 +154,13 @@ class Atom:
     """Opaque symbolic string piece; `alphabet` optionally names the character class it is drawn
     from (a frozenset of characters it can NOT contain is kept in `excludes`)."""
 
-    def __init__(self, name, excludes=frozenset(), nonempty=False, tags=frozenset()):
+    def __init__(self, name, excludes=frozenset(), nonempty=False, tags=frozenset(), zs=None, case_of=None):
         self.name = name
         self.excludes = frozenset(excludes)
         self.nonempty = nonempty
         self.tags = frozenset(tags)
+        self.zs = zs  # optional z3 String term this piece equals
+        self.case_of = case_of  # ("upper"|"lower", z3 String term) for str.upper()/lower() results
 
     def __repr__(self):
         return "Atom(%s)" % self.name
@@ -189,6 +191,20 @@ class SStr:
 
     def is_literal(self):
         return all(isinstance(p, str) for p in self.parts)
+
+    def z3(self):
+        """z3 String term equal to this string, or None when some piece has no z3 counterpart."""
+        ts = []
+        for p in self.parts:
+            if isinstance(p, str):
+                ts.append(z3.StringVal(p))
+            elif isinstance(p, Atom) and p.zs is not None:
+                ts.append(p.zs)
+            else:
+                return None
+        if not ts:
+            return z3.StringVal("")
+        return ts[0] if len(ts) == 1 else z3.Concat(*ts)
 
     def literal(self):
         return "".join(self.parts)
@@ -275,6 +291,10 @@ def is_num(v):
     return (is_z3(v) and (z3.is_int(v) or z3.is_real(v) or z3.is_bool(v))) or (
         isinstance(v, (int, float)) and not isinstance(v, str)
     )
+
+
+def _nonfinite(v):
+    return isinstance(v, float) and (v != v or v in (float("inf"), float("-inf")))
 
 
 def is_intlike(v):
@@ -455,6 +475,10 @@ class Path:
 
     def oblige(self, name, claim, kind="post", info=None):
         self.obligations.append(Obligation(name, to_bool(claim), self.pc, kind, info))
+
+    def undecided(self, name, why):
+        """An obligation the generator cannot express (outside its subset): reported as unknown."""
+        self.obligations.append(Obligation(name, z3.BoolVal(True), self.pc, "undecidable", {"why": why}))
 
 
 class Outcome:
@@ -660,6 +684,10 @@ class Interp:
         h = lookup_model(func)
         if h is not None:
             return h(self, list(args), kwargs)
+        # closed terms (every argument concrete) are evaluated by the real code itself
+        if isinstance(func, (types.MethodType, types.FunctionType)) or (isinstance(func, type) and not issubclass(func, BaseException)):
+            if deep_concrete(list(args)) and deep_concrete(kwargs) and deep_concrete(getattr(func, "__self__", None)):
+                return self.native(func, args, kwargs)
         if isinstance(func, types.MethodType):
             # real bound method: classmethod on a real class, or method on a real instance
             return self.call(func.__func__, [func.__self__] + list(args), kwargs)
@@ -893,7 +921,7 @@ class Interp:
     def x_For(self, node, frame):
         ordinal = frame.loop_ordinal
         frame.loop_ordinal += 1
-        it = self.eval(node.iter, frame)
+        it = self.resolve_iterable(self.eval(node.iter, frame))
         spec = self.loop_specs.get((frame.qn, ordinal))
         if spec is not None:
             return spec(self, node, frame, it)
@@ -935,6 +963,13 @@ class Interp:
                 continue
         self.exec_block(node.orelse, frame)
 
+    def resolve_iterable(self, it):
+        if isinstance(it, SObj) and it.cls is not None:
+            f = _find_in_mro(it.cls, "__iter__")
+            if isinstance(f, types.FunctionType):
+                return self.resolve_iterable(self.call_function(f, [it]))
+        return it
+
     def iterate(self, it):
         """Concrete-length iteration."""
         if isinstance(it, (list, tuple)):
@@ -943,6 +978,19 @@ class Interp:
             return list(it)
         if isinstance(it, SStr) and it.is_literal():
             return list(it.literal())
+        if isinstance(it, SStr) and it.z3() is not None:
+            # iteration over a symbolic string whose length is fixed by the path condition
+            zs = it.z3()
+            sol = z3.Solver()
+            sol.set("timeout", 4000)
+            sol.add(*self.path.pc)
+            if sol.check() == z3.sat:
+                k = sol.model().eval(z3.Length(zs), model_completion=True).as_long()
+                sol.add(z3.Length(zs) != k)
+                if sol.check() == z3.unsat:
+                    return [SStr([Atom("%s[%d]" % (it.parts[0].name if isinstance(it.parts[0], Atom) else "s", i), nonempty=True,
+                                       tags={"char"}, zs=z3.SubString(zs, i, 1))]) for i in range(k)]
+            raise Unsupported("iteration over symbolic string of unconstrained length")
         if isinstance(it, SSeq):
             ln = z3.simplify(to_int(it.length))
             if z3.is_int_value(ln):
@@ -1278,6 +1326,9 @@ class Interp:
                 return True
             if not v.parts:
                 return False
+            zs = v.z3()
+            if zs is not None:
+                return z3.Length(zs) > 0
             raise Unsupported("truth of possibly-empty symbolic string")
         if isinstance(v, SSeq):
             return to_int(v.length) > 0
@@ -1474,6 +1525,8 @@ class Interp:
             if isinstance(a, SSeq) or isinstance(b, SSeq):
                 raise Unsupported("equality on symbolic sequence")
             if is_num(a) and is_num(b):
+                if _nonfinite(a) or _nonfinite(b):
+                    return False  # a symbolic number stands for a finite value (IEEE specials: bounded probes)
                 if (is_z3(a) and z3.is_bool(a)) and (is_z3(b) and z3.is_bool(b)):
                     return a == b
                 if is_z3(a) and z3.is_bool(a) and isinstance(b, bool):
@@ -1529,6 +1582,15 @@ class Interp:
             raise PyRaise(TypeError, ("'%s' not supported between these types" % opn,))
         if not (is_num(a) and is_num(b)):
             raise Unsupported("comparison %s on %r, %r" % (opn, a, b))
+        if _nonfinite(a) or _nonfinite(b):
+            c, other_is_left = (a, False) if _nonfinite(a) else (b, True)
+            if c != c:
+                return False
+            big = c > 0
+            # other (finite) vs +-inf
+            if other_is_left:
+                return {"Lt": big, "LtE": big, "Gt": not big, "GtE": not big}[opn]
+            return {"Lt": not big, "LtE": not big, "Gt": big, "GtE": big}[opn]
         x, y = self.num_pair(a, b)
         return {"Lt": x < y, "LtE": x <= y, "Gt": x > y, "GtE": x >= y}[opn]
 
@@ -1596,6 +1658,12 @@ class Interp:
         if isinstance(obj, SStr):
             return BoundStrMethod(obj, name)
         if isinstance(obj, SSeq):
+            if name == "__iter__":
+                return GhostFn(lambda it, a, k, o=obj: o)
+            if name == "__len__":
+                return GhostFn(lambda it, a, k, o=obj: to_int(o.length))
+            if name == "__getitem__":
+                return GhostFn(lambda it, a, k, o=obj: it.getitem(o, a[0]))
             raise Unsupported("attribute %s on symbolic sequence" % name)
         if isinstance(obj, SExc):
             if name == "args":
@@ -1654,6 +1722,8 @@ class Interp:
             return BoundMethod(d.__func__, cls)
         if isinstance(d, staticmethod):
             return d.__func__
+        if d is object.__init__:
+            return GhostFn(lambda it, a, k: None, "object.__init__")
         if hasattr(type(d), "__get__") and not isinstance(d, type):
             g = type(d).__get__
             if isinstance(g, types.FunctionType):
@@ -1873,6 +1943,9 @@ def str_eq(a, b):
                 return False
         if lit == "" and any(isinstance(p, (str, FmtInt, FmtReal)) or (isinstance(p, Atom) and p.nonempty) for p in other.parts):
             return False
+    za, zb = a.z3(), b.z3()
+    if za is not None and zb is not None:
+        return za == zb
     raise Unsupported("string equality %r == %r" % (a, b))
 
 
@@ -1891,6 +1964,14 @@ def _is_canonical_int(s):
 
 def str_contains(hay, needle):
     if not needle.is_literal():
+        zh, zn = hay.z3(), needle.z3()
+        if hay.is_literal() and zn is not None and len(needle.parts) == 1 and isinstance(needle.parts[0], Atom) and "char" in needle.parts[0].tags:
+            chars = sorted(set(hay.literal()))
+            if not chars:
+                return False
+            return z3.Or(*[zn == z3.StringVal(ch) for ch in chars])
+        if zh is not None and zn is not None:
+            return z3.Contains(zh, zn)
         raise Unsupported("substring test with symbolic needle")
     nd = needle.literal()
     if nd == "":
@@ -1901,6 +1982,9 @@ def str_contains(hay, needle):
     if len(nd) == 1:
         if all(_piece_alphabet_excludes(p, nd) for p in hay.parts):
             return False
+    zh = hay.z3()
+    if zh is not None:
+        return z3.Contains(zh, z3.StringVal(nd))
     raise Unsupported("substring test %r in %r" % (nd, hay))
 
 
@@ -1922,6 +2006,9 @@ def str_startswith(hay, prefix):
         isinstance(first, (FmtInt, FmtReal)) or (isinstance(first, Atom) and first.nonempty)
     ):
         return False
+    zh = hay.z3()
+    if zh is not None:
+        return z3.PrefixOf(z3.StringVal(pf), zh)
     raise Unsupported("startswith %r on %r" % (pf, hay))
 
 
@@ -1943,6 +2030,9 @@ def str_endswith(hay, suffix):
         isinstance(last, (FmtInt, FmtReal)) or (isinstance(last, Atom) and last.nonempty)
     ):
         return False
+    zh = hay.z3()
+    if zh is not None:
+        return z3.SuffixOf(z3.StringVal(sf), zh)
     raise Unsupported("endswith %r on %r" % (sf, hay))
 
 
@@ -1972,6 +2062,31 @@ def str_getitem(interp, s, idx):
             return parts[0][idx]
         if idx < 0 and isinstance(parts[-1], str) and len(parts[-1]) >= -idx:
             return parts[-1][idx]
+    zs = s.z3()
+    if zs is not None:
+        ln = z3.Length(zs)
+        mk = lambda term: SStr([Atom(interp.path.fresh("sub", z3.IntSort()).decl().name(), zs=term)])
+        if isinstance(idx, slice) and idx.step is None and all(x is None or isinstance(x, int) for x in (idx.start, idx.stop)):
+            lo, hi = idx.start, idx.stop
+            if lo is None and isinstance(hi, int) and hi < 0:
+                if interp.path.branch(ln >= -hi):
+                    return mk(z3.SubString(zs, 0, ln + hi))
+                return ""
+            if hi is None and isinstance(lo, int) and lo < 0:
+                if interp.path.branch(ln >= -lo):
+                    return mk(z3.SubString(zs, ln + lo, -lo))
+                return s
+            if hi is None and isinstance(lo, int) and lo >= 0:
+                if interp.path.branch(ln >= lo):
+                    return mk(z3.SubString(zs, lo, ln - lo))
+                return ""
+            if lo is None and isinstance(hi, int) and hi >= 0:
+                return mk(z3.SubString(zs, 0, hi))
+        if isinstance(idx, int) and not isinstance(idx, bool):
+            ok = (ln > idx) if idx >= 0 else (ln >= -idx)
+            if not interp.path.branch(ok):
+                raise PyRaise(IndexError, ("string index out of range",))
+            return mk(z3.SubString(zs, idx if idx >= 0 else ln + idx, 1))
     raise Unsupported("subscript %r of %r" % (idx, s))
 
 
@@ -2001,7 +2116,8 @@ def call_str_method(interp, bm, args, kwargs):
             elif isinstance(p, FmtInt):
                 out.append(p)
             elif isinstance(p, Atom):
-                out.append(Atom("%s(%s)" % (name, p.name), p.excludes - frozenset("abcdefghijklmnopqrstuvwxyzABCDEFGHIJKLMNOPQRSTUVWXYZ"), p.nonempty, p.tags | {name}))
+                out.append(Atom("%s(%s)" % (name, p.name), p.excludes - frozenset("abcdefghijklmnopqrstuvwxyzABCDEFGHIJKLMNOPQRSTUVWXYZ"), p.nonempty, p.tags | {name},
+                                case_of=(name, p.zs) if p.zs is not None else None))
             else:
                 raise Unsupported("%s of float rendering" % name)
         return _mkstr(out)
@@ -2032,6 +2148,12 @@ def call_str_method(interp, bm, args, kwargs):
     if name == "isdigit":
         if all(isinstance(p, str) for p in s.parts):
             return s.literal().isdigit()
+        zs = s.z3()
+        if zs is not None:
+            from . import zstr
+
+            interp.path.assumed.add("str.isdigit() accepts exactly the non-empty strings of characters with the Unicode digit property (table taken from the running interpreter)")
+            return z3.InRe(zs, zstr.isdigit_re())
         raise Unsupported("isdigit on symbolic string")
     if name == "encode":
         return s
